@@ -26,6 +26,7 @@ import (
 	"errors"
 	"fmt"
 	"hash/crc32"
+	"hash/fnv"
 	"io/fs"
 	"os"
 	"path/filepath"
@@ -370,6 +371,7 @@ type vfC14Cfg struct {
 	hashes     []uint32
 	ids        []uint64
 	maxPending int // bound: DeleteRecordLazy is not expanded once PendingDeletes reached it
+	fullImage  bool // state key includes the leaf bytes of the image, not only its header
 }
 
 func vfC14NewCfg(nodeSize uint32, names []string, ids []uint64, maxPending int) *vfC14Cfg {
@@ -394,6 +396,9 @@ const (
 	vfC14WriteLoad
 	vfC14WriteAtLoad
 	vfC14Find // SearchRecord + HasKey of a present name: queries are transitions too (they may keep state)
+	// WriteAt of a loaded object that stays in use afterwards (what it remembers about the file
+	// from its own earlier writes is state); the image is checked by loading a second object
+	vfC14WriteAtKeep
 )
 
 var vfC14DelNames = []string{"DeleteRecord", "DeleteRecordWithRebalancing", "DeleteRecordLazy"}
@@ -433,6 +438,8 @@ func (c *vfC14Cfg) opString(o vfC14Op) string {
 		return "WriteAt;LoadFromFile"
 	case vfC14Find:
 		return fmt.Sprintf("SearchRecord+HasKey(%q)", c.names[o.N])
+	case vfC14WriteAtKeep:
+		return "WriteAt(object stays in use)"
 	}
 	return "?"
 }
@@ -574,7 +581,32 @@ func (c *vfC14Ctx) modelString() string {
 	return sb.String()
 }
 
-func (c *vfC14Ctx) key() string { return vfC14Canon(c.bt) + " | " + c.modelString() }
+func (c *vfC14Ctx) key() string {
+	k := vfC14Canon(c.bt) + " | " + c.modelString()
+	// an object that was loaded from the image can write itself back in place: what the image
+	// holds at its header and leaf is then part of the state (the object may rely on it)
+	if c.mem != nil && c.bt.loadedHeaderAddress != 0 {
+		// (not a CRC: the header ends with its own CRC-32, and the CRC of a block that includes its
+		// CRC is a constant)
+		h := fnv.New64a()
+		rgs := [][2]uint64{{c.bt.loadedHeaderAddress, 64}}
+		if c.cfg.fullImage {
+			// (thorough tier: the leaf bytes too; quick: the header, i.e. the counts on disk)
+			rgs = append(rgs, [2]uint64{c.bt.loadedLeafAddress, uint64(c.cfg.nodeSize)})
+		}
+		for _, rg := range rgs {
+			lo, hi := rg[0], rg[0]+rg[1]
+			if hi > uint64(len(c.mem.data)) {
+				hi = uint64(len(c.mem.data))
+			}
+			if lo < hi {
+				h.Write(c.mem.data[lo:hi])
+			}
+		}
+		k += fmt.Sprintf(" | image=%016x", h.Sum64())
+	}
+	return k
+}
 
 // collider returns a live name != n with the same hash, or -1.
 func (c *vfC14Ctx) collider(n int) int {
@@ -635,7 +667,7 @@ func (c *vfC14Ctx) enabled() []vfC14Op {
 	}
 	ops = append(ops, vfC14Op{K: vfC14Write}, vfC14Op{K: vfC14WriteLoad})
 	if c.bt.loadedHeaderAddress != 0 && c.mem != nil {
-		ops = append(ops, vfC14Op{K: vfC14WriteAtLoad})
+		ops = append(ops, vfC14Op{K: vfC14WriteAtLoad}, vfC14Op{K: vfC14WriteAtKeep})
 	}
 	return ops
 }
@@ -807,6 +839,21 @@ func (c *vfC14Ctx) apply(o vfC14Op) (fails []vfC14Fail) {
 			if post := vfC14Persistent(nb); post != pre {
 				fail("load-differs-after@WriteToFile", map[string]any{"written": pre, "loaded": post})
 			}
+		}
+	case vfC14WriteAtKeep:
+		pre := vfC14Persistent(bt)
+		if err := bt.WriteAt(c.mem, vfKitSB()); err != nil {
+			fail("unexpected-error@WriteAt", map[string]any{"err": vfKitErrText(err)})
+			return
+		}
+		c.outcome = "writeAt(kept)"
+		nb := NewWritableBTreeV2(4096)
+		if err := nb.LoadFromFile(c.mem, c.hdrAddr, vfKitSB()); err != nil {
+			fail("load-error-after@WriteAt(object kept)", map[string]any{"err": vfKitErrText(err), "state": pre})
+			return
+		}
+		if post := vfC14Persistent(nb); post != pre {
+			fail("load-differs-after@WriteAt(object kept)", map[string]any{"written": pre, "loaded": post})
 		}
 	case vfC14WriteAtLoad:
 		pre := vfC14Persistent(bt)
@@ -1425,7 +1472,7 @@ func TestVerif_C14(t *testing.T) {
 	defer r.Finish()
 	r.Rule("hash: jenkinsHash vs independent lookup3 on every byte string of length 0..2 and, for each length 3..64 (thorough 3..256), 3 base strings x every position x {00,01,7F,80,FF}; " +
 		"BFS: explicit-state search over the real WritableBTreeV2 at node size 43 (capacity 3): ops insert(absent name,id) / update / delete x3 variants / update+delete of absent names / " +
-		"lazy on, off, force, clock past MaxDelay / WriteToFile / WriteToFile+LoadFromFile / WriteAt+LoadFromFile; names a, b, a hash-colliding pair, a pair with hash order opposite to byte order; " +
+		"lazy on, off, force, clock past MaxDelay / WriteToFile / WriteToFile+LoadFromFile / WriteAt+LoadFromFile / WriteAt with the object staying in use (the image's header and leaf bytes are part of the state then); names a, b, a hash-colliding pair, a pair with hash order opposite to byte order; " +
 		"successor = replay on a fresh object; dedup on (complete private state, model); every new state: views agree, sorted, equals model, every name searched, write/load/re-write byte identity, independent image decode; " +
 		"non-trivial = every transition (distinct (state, op) by construction); plus capacity-edge executions at node size 4096")
 	r.Assume("time.Since(LastRebalance) >= MaxDelay is false within one replay unless the harness set LastRebalance to the zero time (MaxDelay = 5 min)")
@@ -1443,12 +1490,18 @@ func TestVerif_C14(t *testing.T) {
 		maxPending = 4
 	}
 	cfg := vfC14NewCfg(43, names, ids, maxPending)
+	r.Set("image_bytes_in_state_key", "header of the loaded tree (record counts on disk); thorough: one more pass of the quick configuration with header and leaf")
 	if cfg.hashes[2] != cfg.hashes[3] || names[2] == names[3] {
 		t.Fatalf("harness: colliding pair does not collide")
 	}
 	r.Set("bound_pending_lazy_deletes", maxPending)
 	vfC14BFS(t, r, cfg, 0)
 	if r.Thorough() {
+		// the quick configuration once more with the leaf bytes of the image in the state key
+		// (about 35 times the states; the larger configurations keep the header-only key)
+		cfgFull := vfC14NewCfg(43, names, ids, 2)
+		cfgFull.fullImage = true
+		vfC14BFS(t, r, cfgFull, 0)
 		// capacity 4 (node size 54), three ids
 		cfg2 := vfC14NewCfg(54, names, append(ids, 0x00112233445566FF), 2)
 		vfC14BFS(t, r, cfg2, 0)
